@@ -63,11 +63,12 @@ class LexGrammar:
     def __init__(self, name, terms, shape='list'):
         self.name, self.terms = name, terms
         self.nts, self.ts, self.root = ['L'], [], 'L'
-        self.rules = [('L', [], 0)] + [('L', ['L'] + ['t%d' % k for k in rs], 0) for rs in gen_tu.lex_rules(len(terms), shape)]
+        self.rules = [('L', [], 0)] + [('L', ['L'] + ['error' if k == len(terms) + 1 else 't%d' % k for k in rs], 0) for rs in gen_tu.lex_rules(len(terms), shape)]
         self.tprec, self.tassoc, self.tags = {}, {}, ()
+        self.shape = shape
 
     def has_error(self):
-        return False
+        return self.shape in ('errlist', 'errstmt')
 
 
 def clex_entry(g, gid=None):
